@@ -26,7 +26,7 @@ from mc.core import harness as H
 
 PROPERTY = "C07"
 LEVEL = "model_checking"
-RULE = ("states = operation histories (no merging: a state is its history) of length 0..D (D=3 quick, 4 thorough) over 23 operations; "
+RULE = ("states = operation histories (no merging: a state is its history) of length 0..D (D=3 quick, 4 thorough; histories of length D start with a load or reload) over 23 operations; "
         "transitions = (history, observation) pairs, every one executed on the real code in a process forked from the state the history reached; "
         "reference = the same observation in a fresh process after only the most recent load")
 ASSUMPTIONS = ["a process forked from the harness worker (tally imported, nothing loaded or evaluated) is the 'fresh process' reference",
@@ -294,6 +294,10 @@ def _worker(args):
         idx = 0
         for n in range(0, depth + 1):
             for hist in itertools.product(range(len(OPS)), repeat=n):
+                # the longest histories start with a (re)load: without one nothing is loaded that later operations could disturb
+                # (a pure sequence of observations of that length is covered one level down, where it is unconstrained)
+                if n == depth and n >= 3 and hist[0] >= len(LOADS):
+                    continue
                 idx += 1
                 if (idx + rot) % nshards != shard:
                     continue
@@ -329,7 +333,7 @@ def _worker(args):
 
 
 def bounds(tier):
-    return {"history_depth": 3 if tier == "quick" else 4, "operations": [op_name(o) for o in OPS]}
+    return {"history_depth": 3 if tier == "quick" else 4, "longest_histories_start_with_a_load": True, "operations": [op_name(o) for o in OPS]}
 
 
 def run_custom(tier, seed):
